@@ -426,7 +426,7 @@ func checkSegments(t []byte, lcpM [][]int16, minLen, maxLen int, mode int, st *c
 		for i := 2 * n; i < len(arena); i++ {
 			arena[i] = canary
 		}
-		lcp = arena[:n]    // capacity reaches into sa
+		lcp = arena[:n]     // capacity reaches into sa
 		sa = arena[n : 2*n] // capacity reaches into the canaries
 	}
 	sortInPlace := mode == 1
